@@ -235,6 +235,13 @@ def parse_defaults(src, oog):
             out.append((name, "DComposes", None))
     return out
 
+DL_DATA_MEMBERS = {
+    "alpaqa_problem_functions_t": ["alpaqa_length_t n ALPAQA_DEFAULT(0);", "alpaqa_length_t m ALPAQA_DEFAULT(0);", "const char *name ALPAQA_DEFAULT(nullptr);"],
+    "alpaqa_control_problem_functions_t": ["alpaqa_length_t N ALPAQA_DEFAULT(0), nx ALPAQA_DEFAULT(0), nu ALPAQA_DEFAULT(0), nh ALPAQA_DEFAULT(0), "
+                                           "nh_N ALPAQA_DEFAULT(0), nc ALPAQA_DEFAULT(0), nc_N ALPAQA_DEFAULT(0);"],
+}
+
+
 def c_signatures(hsrc, oog):
     """function tables of dl-problem.h; every member of the two structs is accounted for (function pointer or one of the known data members)"""
     sigs = {}
@@ -246,16 +253,20 @@ def c_signatures(hsrc, oog):
         body = hsrc[i:balanced(hsrc, i)]
         body = re.sub(r"/\*.*?\*/", " ", re.sub(r"///[^\n]*|//[^\n]*", "", body), flags=re.S)
         d = {}
-        for c in member_chunks(body):
+        chunks = member_chunks(body)
+        # the data members come first, exactly these
+        want = DL_DATA_MEMBERS[sname]
+        if [re.sub(r"\s+", "", c) for c in chunks[:len(want)]] != [re.sub(r"\s+", "", w) for w in want]:
+            oog.append("%s: does not start with the known data members %s" % (sname, want))
+        for c in chunks[len(want):]:
             mm = re.fullmatch(r"[\w ]+?\*? ?\(\* ?(%s) ?\) ?\(([^()]*)\)( ALPAQA_DEFAULT\(nullptr\))? ?;" % ID, c)
             if mm:
                 if mm.group(1) in d:
                     oog.append("%s: member %s declared twice" % (sname, mm.group(1)))
                 ps = param_names(mm.group(2))
                 d[mm.group(1)] = ps[1:] if ps and ps[0] == "instance" else ps
-            elif not (re.fullmatch(r"alpaqa_length_t \w+ ALPAQA_DEFAULT\(0\)(, \w+ ALPAQA_DEFAULT\(0\))* ?;", c) or
-                      re.fullmatch(r"const char ?\* ?name ALPAQA_DEFAULT\(nullptr\) ?;", c)):
-                oog.append("%s: member '%s' is neither a function pointer nor a known data member" % (sname, c[:60]))
+            else:
+                oog.append("%s: member '%s' is not a function pointer" % (sname, c[:60]))
         sigs[sname] = d
     return sigs
 
@@ -371,6 +382,9 @@ def generate(repo, verif):
         for nm in d:
             if nm not in referenced:
                 status["out_of_grammar"].append("%s: member %s is never read by dl-problem.cpp" % (sname, nm))
+    declared = set(nm for d in csig.values() for nm in d) | set(re.findall(r"\b(\w+) ALPAQA_DEFAULT", " ".join(w for ws in DL_DATA_MEMBERS.values() for w in ws)))
+    for nm in sorted(referenced - declared):
+        status["out_of_grammar"].append("dl-problem.cpp reads functions->%s, which is not a member of the function tables" % nm)
     for nm, w in (("ProblemWithCounters", nlp), ("ControlProblemWithCounters", ocp)):
         if not w["found"] or not w["methods"]:
             status["out_of_grammar"].append("%s: struct or members not found" % nm)
